@@ -13,6 +13,7 @@ request   c06 hist <ad> <ti> <collectors> <ops> <namesets>
   namesets    . | <set>;<set>…   set = _ | <namehex>,…
 reply     ok <step>;<step>… <restricted>;<restricted>…           (`.` for none)
   step        <ok|ErrorClass>!<registered ids>!<name-map keys hex>!<target info labels>!<families>!<collect() call ids>
+              !<collect() calls made by the call itself (register under auto-describe)>
   restricted  <families>!<call ids>!<spec: filter of the full collection>
 -/
 import PromVerif.Py.Wire
@@ -123,7 +124,8 @@ def encErr : Option PyErr → String
   | none => "ok"
   | some e => e.name
 
-def encStep (r : State × Option PyErr) : String :=
+def encStep (rc : (State × Option PyErr) × List Owner) : String :=
+  let r := rc.1
   let s := r.1
   let col := collect s
   "!".intercalate [
@@ -132,7 +134,8 @@ def encStep (r : State × Option PyErr) : String :=
     joinOr "," "." (s.namesToCollectors.map fun e => encHex e.1),
     encLabels s.targetInfo,
     encFamilies col.families,
-    joinOr "," "." (col.calls.map encOwner)]
+    joinOr "," "." (col.calls.map encOwner),
+    joinOr "," "." (rc.2.map encOwner)]
 
 def encRestricted (s : State) (names : List Name) : String :=
   let r := restrictedCollect names s
@@ -155,7 +158,7 @@ def hist (ad ti colls ops sets : String) : Option String := do
   let s0 := init adb ti0
   let tr := trace s0 os
   let sf := finalState s0 tr
-  pure ("ok " ++ joinOr ";" "." (tr.map encStep) ++ " " ++ joinOr ";" "." (nss.map (encRestricted sf)))
+  pure ("ok " ++ joinOr ";" "." ((tr.zip (traceCalls s0 os)).map encStep) ++ " " ++ joinOr ";" "." (nss.map (encRestricted sf)))
 
 def handle : List String → String
   | ["hist", ad, ti, colls, ops, sets] =>
